@@ -5,5 +5,5 @@ D=$(mktemp -d /tmp/kpmut.XXXXXX)
 mkdir -p $D/repo && cp -r /repo/kernpy /repo/README.md $D/repo/
 sed -i "$3" $D/repo/$2
 if diff -q /repo/$2 $D/repo/$2 >/dev/null; then echo "MUTATION DID NOT APPLY"; rm -rf $D; exit 9; fi
-cd /verif && KERNPY_REPO=$D/repo ./check $1 -q 2>&1 | grep -v "^  " | tail -8
+P=$1; F=$2; S=$3; shift 3; cd /verif && KERNPY_REPO=$D/repo ./check $P -q "$@" 2>&1 | grep -v "^  " | tail -8
 rm -rf $D
